@@ -98,12 +98,14 @@ impl G {
   fn gen_member(&mut self, cname: &str, module: usize, is_method: bool, private: bool, depth: u32) {
     let name = self.fresh(if is_method { "m" } else { "f" });
     let mut cx = if is_method { self.method_ctx(cname, module, 4) } else { self.base_ctx(cname, module, 4) };
-    let np = self.rng.below(if is_method { 3 } else { 4 });
+    // "function-value friendly": usable as a function / method reference of type (int, ..) -> T
+    let friendly = self.rng.chance(if self.prof == Profile::Closures { 3 } else { 1 }, 5);
+    let np = if friendly { 1 + self.rng.below(2) } else { self.rng.below(if is_method { 3 } else { 4 }) };
     let mut params = vec![];
     for _ in 0..np {
-      let t = self.pick_ty(module);
+      let t = if friendly { Ty::Int } else { self.pick_ty(module) };
       let t = if matches!(t, Ty::V(_)) && self.rng.chance(1, 2) { Ty::Int } else { t };
-      let r = if t == Ty::Int { self.int_param_range() } else { self.dflt(&t) };
+      let r = if friendly { *self.rng.pick(&[(-1000, 1000), (-100, 100)]) } else if t == Ty::Int { self.int_param_range() } else { self.dflt(&t) };
       let n = self.fresh("p");
       cx.push(&n, &t, r);
       params.push((n, t, r));
@@ -118,7 +120,7 @@ impl G {
       }
     }
     let ret = {
-      let t = self.pick_ty(module);
+      let t = if friendly { self.rng.pick(&[Ty::Int, Ty::Int, Ty::Bool, Ty::Str]).clone() } else { self.pick_ty(module) };
       if matches!(t, Ty::V(_)) {
         Ty::Int
       } else {
@@ -126,7 +128,8 @@ impl G {
       }
     };
     self.begin_fn();
-    let body = self.gen(&ret, &cx, depth, self.wide(&ret));
+    let want = if friendly { self.dflt(&ret) } else { self.wide(&ret) };
+    let body = self.gen(&ret, &cx, depth, want);
     let (level, cost, pure) = self.end_fn();
     let plist = params.iter().map(|(n, t, _)| format!("{n}: {}", t.txt())).collect::<Vec<_>>().join(", ");
     let kw = if is_method { "method" } else { "function" };
@@ -144,6 +147,36 @@ impl G {
     s.private = private;
     s.modpriv = self.classes[ci].private;
     self.push_sig(s);
+  }
+
+  /// `method mkK(p: int): (int) -> int = (x) -> <int expression over x, p and this>`
+  fn gen_closure_method(&mut self, cname: &str, module: usize) {
+    let name = self.fresh("mk");
+    let mut cx = self.method_ctx(cname, module, 3);
+    let pn = self.fresh("p");
+    cx.push(&pn, &Ty::Int, (-50, 50));
+    self.begin_fn();
+    let mut best: Option<String> = None;
+    for _ in 0..6 {
+      let (lam, _) = self.lambda_with(&[(Ty::Int, FNP)], &Ty::Int, STORE, &cx, 2, false, 4);
+      let uses_this = mentions(&lam, "this");
+      if uses_this || best.is_none() {
+        best = Some(lam);
+      }
+      if uses_this {
+        break;
+      }
+    }
+    let (level, cost, pure) = self.end_fn();
+    let ci = self.cidx[cname];
+    self.classes[ci].members.push(format!("method {name}({pn}: int): (int) -> int = {}", best.unwrap()));
+    let mut s = self.plain_sig(cname, Some(Ty::cls(cname)), &name, vec![(pn, Ty::Int, (-50, 50))], Ty::func(vec![Ty::Int], Ty::Int), ANY, module, level, cost, pure);
+    s.feats = vec!["closure-returning-method"];
+    self.push_sig(s);
+    let f1 = Ty::func(vec![Ty::Int], Ty::Int);
+    if !self.pool.contains(&f1) {
+      self.pool.push(f1);
+    }
   }
 
   // ------------------------------------------------------------------ tail-recursive loops
@@ -838,6 +871,10 @@ impl G {
       if self.total_lines() > budget_a {
         break;
       }
+      let has_int_field = self.fields_of(&Ty::cls(cn)).map(|fs| fs.iter().any(|f| f.ty == Ty::Int)).unwrap_or(false);
+      if has_int_field && self.rng.chance(if prof == Profile::Closures { 3 } else { 1 }, 5) {
+        self.gen_closure_method(cn, *m);
+      }
       let k = self.rng.below(3);
       for j in 0..k {
         if self.total_lines() > budget_a {
@@ -1165,13 +1202,18 @@ pub fn main(args: &[String]) {
       std::process::exit(2);
     }
   };
-  let mut allow: BTreeSet<String> = BTreeSet::new();
+  // regions that are on by default and can be switched off with --deny
+  let mut allow: BTreeSet<String> = ["genmethodref"].iter().map(|s| s.to_string()).collect();
   let mut i = 0;
   while i < args.len() {
-    if args[i] == "--allow" {
+    if args[i] == "--allow" || args[i] == "--deny" {
       if let Some(v) = args.get(i + 1) {
         for a in v.split(',') {
-          allow.insert(a.trim().to_string());
+          if args[i] == "--allow" {
+            allow.insert(a.trim().to_string());
+          } else {
+            allow.remove(a.trim());
+          }
         }
       }
     }
